@@ -604,11 +604,6 @@ def listener_pairing(ctx, res):
     # remove(remove=True): same handler, same pattern expression, delete entry
     rps = [a.arg for a in rem.args.args]
     res.instance("_remove_trait_delegate_listener", mod.loc(rem))
-    rm_if = [i for i in rem.body if isinstance(i, ast.If)
-             and norm(i.test) == rps[2]]
-    if not rm_if:
-        raise AnalysisError("_remove_trait_delegate_listener: `if remove:`")
-    blk = ast.Module(rm_if[0].body, [])
     # the local bound to the per-object listener table
     tbl = None
     for a in ast.walk(rem):
@@ -620,8 +615,43 @@ def listener_pairing(ctx, res):
     if tbl is None:
         raise AnalysisError("_remove_trait_delegate_listener: listener "
                             "table local not found")
-    from ..pyfacts import expand_locals
-    unregs = [c for c in ast.walk(blk) if is_self_call(c, "on_trait_change")]
+    from ..cfg import enumerate_paths
+    from ..pycfg import build_cfg
+    from ..pyfacts import atomic_facts, expand_locals
+    # the two behaviours are told apart by the `remove` parameter on each
+    # path (whatever the shape: if/else, guard clauses, early returns)
+    g_ = build_cfg(rem, "_remove_trait_delegate_listener")
+    classes = {"T": [], "F": []}
+    for path in enumerate_paths(g_, max_paths=5000):
+        if path and g_.nodes[path[-1][0]].id == g_.raise_exit.id:
+            continue
+        facts, nodes = set(), []
+        for nid, lab in path:
+            nd = g_.nodes[nid]
+            if nd.kind == "cond" and lab in ("T", "F"):
+                facts |= atomic_facts(rem, nd.ast, lab == "T")
+            elif nd.ast is not None:
+                nodes.append(nd.ast)
+        pol = {t for t, a in facts if a == rps[2]}
+        if len(pol) != 1:
+            raise AnalysisError("_remove_trait_delegate_listener: a path "
+                                "does not decide `remove`")
+        classes[pol.pop()].append((facts, nodes))
+    if not classes["T"] or not classes["F"]:
+        raise AnalysisError("_remove_trait_delegate_listener: `if remove:`")
+
+    def _calls_on(paths, name):
+        seen, out = set(), []
+        for facts, nodes in paths:
+            for a_ in nodes:
+                for c_ in ast.walk(a_):
+                    if is_self_call(c_, name) and id(c_) not in seen:
+                        seen.add(id(c_))
+                        out.append(c_)
+        return out
+    unregs = _calls_on(classes["T"], "on_trait_change")
+    blk = ast.Module([a_ for facts, nodes in classes["T"] for a_ in nodes
+                      if isinstance(a_, ast.stmt)], [])
     ok = False
     pattern_exprs = []
     if len(unregs) == 1:
@@ -640,30 +670,45 @@ def listener_pairing(ctx, res):
                "detaching must call on_trait_change(<recorded handler>, "
                "self._trait_delegate_name(name, <class pattern>), "
                "remove=True)")
-    dels = [norm(d.targets[0]) for d in ast.walk(blk)
-            if isinstance(d, ast.Delete)]
-    dels += [f"{tbl}[{rps[1]}]" for c_ in ast.walk(blk)
-             if isinstance(c_, ast.Call)
-             and norm(c_) == f"{tbl}.pop({rps[1]})"]
-    res.oblige(f"{tbl}[{rps[1]}]" in dels, "remove:table", mod.loc(rem),
+    # every detaching path also deletes the table entry
+    def _deletes(nodes):
+        for a_ in nodes:
+            for d in ast.walk(a_):
+                if isinstance(d, ast.Delete) and any(
+                        norm(t) == f"{tbl}[{rps[1]}]" for t in d.targets):
+                    return True
+                if isinstance(d, ast.Call) \
+                        and norm(d) == f"{tbl}.pop({rps[1]})":
+                    return True
+        return False
+    det = [(f_, n_) for f_, n_ in classes["T"]
+           if any(c_ is unregs[0] for a_ in n_ for c_ in ast.walk(a_))] \
+        if unregs else []
+    res.oblige(bool(det) and all(_deletes(n_) for f_, n_ in det),
+               "remove:table", mod.loc(rem),
                "the table entry is not deleted when the listener is detached "
                "(deleting the local value would not re-attach it)")
     # remove=False: re-initialise iff absent, with the class pattern
-    # (after the `if remove:` block or in its else/elif part)
-    tail = rem.body[rem.body.index(rm_if[0]) + 1:] + rm_if[0].orelse
-    re_init = [c for c in ast.walk(ast.Module(tail, []))
-               if is_self_call(c, "_init_trait_delegate_listener")]
+    re_init = _calls_on(classes["F"], "_init_trait_delegate_listener")
     exp_tbl = norm(expand_locals(rem, ast.Name(tbl, ast.Load())))
 
-    def _gnorm(t):
-        t = norm(expand_locals(rem, t)).replace(exp_tbl, tbl)
-        m_ = re.fullmatch(r"not \(?(\w+) in (\w+)\)?", t)
-        return f"{m_.group(1)} not in {m_.group(2)}" if m_ else t
-    guards = [_gnorm(i.test) for i in ast.walk(ast.Module(tail, []))
-              if isinstance(i, ast.If)]
-    guards += [_gnorm(i.test) for i in rm_if[0].orelse
-               if isinstance(i, ast.If)]
-    res.oblige(len(re_init) == 1 and f"{rps[1]} not in {tbl}" in guards,
+    def _absent(facts):
+        """True / False when the path has decided `name in table`, else
+        None"""
+        for t, a in facts:
+            a = a.replace(exp_tbl, tbl)
+            if a == f"{rps[1]} not in {tbl}":
+                return t == "T"
+            if a == f"{rps[1]} in {tbl}":
+                return t == "F"
+        return None
+    restore_ok = len(re_init) == 1
+    for facts, nodes in classes["F"]:
+        does = any(c_ is re_init[0] for a_ in nodes for c_ in ast.walk(a_)) \
+            if re_init else False
+        if _absent(facts) is None or does != _absent(facts):
+            restore_ok = False
+    res.oblige(restore_ok,
                "remove:restore", mod.loc(rem),
                "deleting the local value must re-attach the listener (only "
                "when absent)")
